@@ -1,7 +1,7 @@
 (* C06 — every diagnostic points into the element, line and columns that caused it (position part).
    Models: Position.v (position_index_t, PositionTracker as driven by the lexer, add_error's lookup). *)
 From Coq Require Import List Arith.
-From Utap Require Import Position.
+From Utap Require Import Position XPath.
 Import ListNotations.
 
 (* the binary search of position_index_t::find returns the last entry at or before the position, on every table
@@ -27,6 +27,21 @@ Proof. exact (linecol_correct t0 path ls k). Qed.
 (* the tables the tracker builds are always ordered, so add() never throws inside one block *)
 Theorem C06_table_ordered t ls : chain (t_pos t) (snd (lex_all t ls)).
 Proof. exact (proj1 (lex_all_chain ls t)). Qed.
+
+(* the path string: per depth the tag and, for the tags that may repeat, the number of siblings begun so far with that tag.
+   Read by an XPath engine (k-th child with that tag; all children when there is no index) it selects exactly the element
+   it was computed at — for every tree in which the un-indexed tags occur at most once among siblings (the DTD), at any depth *)
+Theorem C06_xpath_selects_the_element : forall (indexed : nat -> bool) pos forest t,
+  node_at forest pos = Some t -> unique_ok indexed (length pos) forest -> select (xpath_of indexed forest pos) forest = [t].
+Proof. exact xpath_selects_the_element. Qed.
+Print Assumptions C06_xpath_selects_the_element.
+
+Example C06_xpath_example :   (* nta(decl, template(name, location, location(label, label)), template) : /0/2[1]/3[2]/4[2] *)
+  let ix := fun g => Nat.leb 2 g in
+  let forest := [Node 0 [Node 1 []; Node 2 [Node 5 []; Node 3 []; Node 3 [Node 4 []; Node 4 []]]; Node 2 []]] in
+  xpath_of ix forest [0; 1; 2; 1] = [(0, None); (2, Some 1); (3, Some 2); (4, Some 2)]
+  /\ select (xpath_of ix forest [0; 1; 2; 1]) forest = [Node 4 []].
+Proof. vm_compute. split; reflexivity. Qed.
 
 Example C06_example :    (* "a\n\n  b": token a, two line feeds, two blanks, token b; offset 5 is 'b': line 3, column 2 *)
   resolve [mkl 1 0; mkl 2 2; mkl 2 0; mkl 1 0] 0 5 1 0 = (3, 3).
